@@ -414,6 +414,12 @@ class Interp:
                 if oa is not None or ob is not None:
                     raise Undecided(f"row-wise selection `{dump(node)[:70]}` not understood")
                 return OPAQUE
+        if (ch == "torch.nonzero" and len(node.args) == 1) or (name == "nonzero" and isinstance(fn, ast.Attribute) and not node.args and ch != "torch.nonzero"):
+            # torch.nonzero(mask, as_tuple=True)[0] / torch.nonzero(mask)[:, 0]: the row numbers where the mask holds, like torch.where(mask)[0]
+            v = self.ev(node.args[0] if node.args else fn.value, env)
+            if isinstance(v, Mask):
+                return Index(v.f, v.about)
+            return Index(B.var(f"u{next(self.fresh)}"), None)
         if ch in ("torch.zeros", "torch.zeros_like", "torch.empty"):
             return ZeroT()
         if ch in ("Points.empty",):
